@@ -51,6 +51,7 @@ def run(ctx):
         clock.install()
         srv = zkfake.ZkServer(clock=clock.peek)
         srv.keep_log = False
+        srv.child_order, srv.order_salt = 'hash', str(idx)
         zk = srv.client('appmonitor')
         admin = srv.client('admin')
         for p in (z.SCHEDULED, z.APPMONITORS, z.TRACE):
